@@ -204,3 +204,11 @@ func verifCount(e *EventSubscription) int64 {
 	defer e.mu.Unlock()
 	return e.count
 }
+
+// verifCID is the connection id of a subscriber ("" for none).
+func verifCID(sub Subscriber) string {
+	if sub == nil {
+		return ""
+	}
+	return sub.CID()
+}
